@@ -8,16 +8,21 @@ import time
 
 from vcheck import sexp, parse_sexp
 from gen import tracefs as T
+from whoosh.codec.base import Segment
+from whoosh.filedb.filestore import RamStorage
 
 ID = "C02"
 LEVEL = "proof"
 LEAN_IMPORTS = ["WM.Props.C02"]
 THEOREMS = ["WM.C02.crash_atomic", "WM.C02.cancel", "WM.C02.commit", "WM.C02.orphans_removed",
             "WM.C02.next_commit", "WM.C02.pattern", "WM.C02.consistent_at",
-            "WM.C02.segFiles_segOf", "WM.C02.clean_codec", "WM.C02.toc_tmp_leaks"]
+            "WM.C02.segFiles_segOf", "WM.C02.clean_codec", "WM.C02.toc_tmp_leaks",
+            "WM.C02.committed_files_untouched", "WM.C02.committed_files_untouched_commit"]
 PARTIAL = {}
 RULE = ("histories of random writer transactions (adds/deletes/updates/schema changes, every merge policy, "
-        "compound and loose segments, commit/cancel/failing with-block) on a tracing FileStorage; one case = "
+        "compound and loose segments, commit/cancel/failing with-block) on a tracing FileStorage, plus scripted "
+        "histories (five small segments then really merging default commits; a field with a column of its own added, "
+        "given values in loose/compound segments and removed again by a committing / cancelled / failing writer); one case = "
         "one crash point (event boundary x truncation of the files open there) re-opened with the real API; "
         "non-trivial = the crash point lies inside the transaction (not before its first or after its last "
         "event) of a transaction that writes at least one file; distinct = distinct (canonical trace prefix, "
@@ -153,10 +158,15 @@ def _history_job(job):
         for ti in range(job["ntxn"]):
             # wall-clock bound of the enumeration: no new transaction after the deadline (the one
             # in progress is always finished); the parent records how many were done
-            if job.get("deadline") and time.time() > job["deadline"] and not job.get("nodeadline"):
+            force = job.get("force", [None] * job["ntxn"])[ti] if job.get("force") else None
+            if job.get("deadline") and time.time() > job["deadline"] and not job.get("nodeadline") \
+                    and not (force and force.get("must")):
                 out["stopped"] = True
                 break
-            force = job.get("force", [None] * job["ntxn"])[ti] if job.get("force") else None
+            # set-up transactions of scripted histories are run without the crash-point enumeration
+            nosnap = bool(force and force.get("nosnap"))
+            if force:
+                force = dict((k_, v_) for k_, v_ in force.items() if k_ not in ("nosnap", "must"))
             txn = T.gen_txn(rng, state, force=force)
             entries0 = T.dir_entries(st, IX)
             gen_old = ix.latest_generation()
@@ -198,7 +208,7 @@ def _history_job(job):
 
             tr.events[:] = []
             tr.enabled = True
-            tr.hook = hook
+            tr.hook = None if nosnap else hook
             err = None
             try:
                 outcome = T.run_txn(ix, txn)
@@ -405,9 +415,11 @@ def _judge_snaps(ctx, h, ti, t, pred, stream):
                           want_gen, ev["gen"], "re-opened index is neither at the expected generation")
         if ev["dump"] != want_dump:
             which = "old" if ev["dump"] == t["dump_old"] else "new" if ev["dump"] == t["dump_new"] else "mixture"
+            parts = sorted(p for p in set(want_dump) | set(ev["dump"]) if want_dump.get(p) != ev["dump"].get(p))
             ctx.violation("recovered-content-is-%s:%s" % (which, "after-rename" if after else "before-rename"),
                           case, T.dump_keys(want_dump), T.dump_keys(ev["dump"]),
-                          "content of the re-opened index differs from the committed state it must show")
+                          "content of the re-opened index differs from the committed state it must show "
+                          "(differing parts of the dump: %s)" % ", ".join(parts))
         if ev["search"] != sorted(T.dump_keys(want_dump)):
             ctx.violation("search-after-crash", case, sorted(T.dump_keys(want_dump)), ev["search"])
         lt = ev.get("later")
@@ -439,12 +451,14 @@ def _judge_snaps(ctx, h, ti, t, pred, stream):
 
 
 def _histories(ctx, stream, njobs, ntxn, full, later_stride, trace_share, scratch, seeds=None, force=None,
-               deadline=None, pre=0):
+               deadline=None, pre=0, forces=None):
     jobs = []
     for i in range(njobs):
-        jobs.append({"seed": seeds[i] if seeds else "%s:%s:%s:%d" % (ID, ctx.seed, stream, i), "ntxn": ntxn,
+        jobs.append({"seed": seeds[i] if seeds else "%s:%s:%s:%d" % (ID, ctx.seed, stream, i),
+                     "ntxn": len(forces[i % len(forces)]) if forces else ntxn,
                      "full": full, "scratch": scratch, "later_stride": later_stride,
-                     "trace_share": trace_share, "force": force, "deadline": deadline,
+                     "trace_share": trace_share, "force": forces[i % len(forces)] if forces else force,
+                     "deadline": deadline,
                      "pre": pre if seeds else [0, 8, 0, 9, 0, 0, 98, 7][i % 8],
                      # replays and the first history always run in full
                      "nodeadline": bool(seeds) or i == 0})
@@ -522,29 +536,58 @@ def _patterns(ctx):
             ctx.violation("TOC.write:temp-name-matches-pattern", [g, tmpname], "final matches, temp does not", "?")
 
 
-class _ListStorage(object):
-    """Just enough of a storage for `_latest_generation` / `clean_files`."""
+class _ListStorage(RamStorage):
+    """A directory listing as a storage for `_latest_generation` / `clean_files`: a real RamStorage (the
+    whole public storage interface works on it) holding one empty file per listed name; deletions are
+    recorded."""
 
     def __init__(self, names):
-        self.names = list(names)
+        RamStorage.__init__(self)
+        for n in names:
+            self.files[n] = b""
         self.deleted = []
-
-    def __iter__(self):
-        return iter(self.names)
-
-    def list(self):
-        return list(self.names)
 
     def delete_file(self, n):
         self.deleted.append(n)
+        return RamStorage.delete_file(self, n)
 
 
-class _Seg(object):
-    def __init__(self, sid):
+class _Seg(Segment):
+    """A segment of the current TOC, known by its id only (subclass of the codec's Segment base class)."""
+
+    def __init__(self, indexname, sid):
+        Segment.__init__(self, indexname)
         self.sid = sid
+        if sid.startswith(indexname + "_"):
+            self.segid = sid[len(indexname) + 1:]
+
+    def codec(self):
+        from whoosh.codec import default_codec
+        return default_codec()
 
     def segment_id(self):
         return self.sid
+
+    def doc_count_all(self):
+        return 0
+
+    def doc_count(self):
+        return 0
+
+    def deleted_count(self):
+        return 0
+
+    def has_deletions(self):
+        return False
+
+    def deleted_docs(self):
+        return iter(())
+
+    def is_deleted(self, docnum):
+        return False
+
+    def delete_document(self, docnum, delete=True):
+        raise NotImplementedError
 
 
 def _listings(ctx):
@@ -572,7 +615,7 @@ def _listings(ctx):
         ctx.case(("latest", ix, tuple(names)), nontrivial=impl >= 0)
         if ans[i] != (str(impl) if impl >= 0 else "none"):
             ctx.divergence("TOC._latest_generation", [ix, names], ans[i], impl)
-        clean_files(st, ix, gen, [_Seg(s) for s in cur])
+        clean_files(st, ix, gen, [_Seg(ix, s) for s in cur])
         model = ["".join(chr(int(c)) for c in nm) for nm in parse_sexp(ans[n + i])[0]]
         ctx.case(("clean", ix, tuple(names), tuple(cur), gen), nontrivial=bool(st.deleted))
         ctx.stat("clean:deleted", len(st.deleted))
@@ -735,6 +778,57 @@ def _codec_files(ctx, scratch, seeds=None):
 
 # ------------------------------------------------------------------------------------------------
 
+# scripted histories: the default merge policy (MERGE_SMALL) only merges once there are at least
+# five small segments, which random 3-4 transaction histories hardly ever reach; here five
+# non-merging commits are followed by default commits that really merge (and an optimize)
+_FEW = [{"merge": "nomerge", "outcome": "commit", "schema": None}] * 5
+MERGING_SCRIPT = _FEW + [{"merge": "default", "outcome": "commit", "schema": None},
+                         {"merge": "default", "outcome": "commit"}, {"merge": "optimize", "outcome": "commit"}]
+
+
+def _schema_script(loose1, second, loose2=None, snap_add=False):
+    """schema-change histories: a field with a column of its own is added and gets values in a segment
+    (loose or compound), then a transaction removes it again and commits / is cancelled / fails in its
+    with-block, then the removal is committed.  Every boundary of the removing transactions is a crash
+    point, so 'a schema change is invisible until the TOC rename' is looked at on per-field segment files
+    as well as on the pickled schema.  (`snap_add`: the adding transaction is enumerated as well.)"""
+    # "must": the transaction the script is about is enumerated even when the wall-clock bound is reached
+    s2 = dict(second, schema="remove", must=True)
+    if loose2 is not None:
+        s2["compound"] = not loose2
+    script = [{"merge": "nomerge", "outcome": "commit", "schema": None, "compound": not loose1, "min_adds": 1,
+               "nosnap": True, "must": True},
+              {"merge": "nomerge", "outcome": "commit", "schema": "add", "compound": not loose1, "min_adds": 2,
+               "nosnap": not snap_add, "must": True},
+              s2]
+    if s2["outcome"] != "commit":
+        # the removal was not committed: the schema still has the field, so it is removed once more
+        script.append({"outcome": "commit", "schema": "remove"})
+    return script
+
+
+SCHEMA_SCRIPTS = [
+    _schema_script(True, {"outcome": "cancel"}),
+    _schema_script(True, {"outcome": "commit", "merge": "nomerge"}, loose2=True),
+    _schema_script(True, {"outcome": "exception"}),
+    _schema_script(True, {"outcome": "commit", "merge": "optimize"}, snap_add=True),
+    _schema_script(False, {"outcome": "cancel"}),
+    _schema_script(True, {"outcome": "commit", "merge": "default"}, loose2=False),
+]
+
+
+def _script_of(seed):
+    """the script a scripted stream gave the history with this seed (replays rebuild it from the seed)"""
+    parts = str(seed).split(":")
+    if len(parts) < 4 or not parts[3].isdigit():
+        return None
+    if parts[2] in ("merging", "search-merging"):
+        return MERGING_SCRIPT
+    if parts[2] in ("schema", "search-schema"):
+        return SCHEMA_SCRIPTS[int(parts[3]) % len(SCHEMA_SCRIPTS)]
+    return None
+
+
 def run(ctx):
     _corpus(ctx)
     _patterns(ctx)
@@ -746,19 +840,23 @@ def run(ctx):
         # the enumeration is bounded in wall-clock time (measured from the start of the check):
         # ~60 s quick / ~10 min thorough; boosted budgets and a loaded machine then mean fewer
         # transactions, not a longer run
-        deadline = ctx.t0 + (45 if quick else 600)
+        deadline = ctx.t0 + (36 if quick else 600)
         _histories(ctx, "main", njobs=ctx.budget(16, 48), ntxn=(3 if quick else 4) * ctx.boost, full=not quick,
                    later_stride=7 if quick else 4, trace_share=0.3 if quick else 0.4, scratch=scratch,
                    deadline=deadline)
-        # scripted histories: the default merge policy (MERGE_SMALL) only merges once there are at least
-        # five small segments, which random 3-4 transaction histories hardly ever reach; here five
-        # non-merging commits are followed by default commits that really merge (and an optimize)
-        few = [{"merge": "nomerge", "outcome": "commit", "schema": None}] * 5
-        script = few + [{"merge": "default", "outcome": "commit", "schema": None},
-                        {"merge": "default", "outcome": "commit"}, {"merge": "optimize", "outcome": "commit"}]
+        script = MERGING_SCRIPT
+        ndiv = len(ctx.divergences) + len(ctx.violations)
+        _histories(ctx, "schema", njobs=ctx.budget(len(SCHEMA_SCRIPTS), 3 * len(SCHEMA_SCRIPTS)),
+                   ntxn=len(SCHEMA_SCRIPTS[0]), full=not quick, later_stride=7 if quick else 4,
+                   trace_share=0.3 if quick else 0.4, scratch=scratch, forces=SCHEMA_SCRIPTS,
+                   deadline=max(time.time(), deadline) + (10 if quick else 90))
+        if len(ctx.divergences) + len(ctx.violations) > ndiv and not ctx.violations:
+            _histories(ctx, "search-schema", njobs=len(SCHEMA_SCRIPTS), ntxn=len(SCHEMA_SCRIPTS[0]), full=True,
+                       later_stride=2, trace_share=0.2, scratch=scratch, forces=SCHEMA_SCRIPTS,
+                       deadline=max(time.time(), deadline) + (20 if quick else 120))
         _histories(ctx, "merging", njobs=ctx.budget(4, 12), ntxn=len(script), full=not quick,
                    later_stride=7 if quick else 4, trace_share=0.3 if quick else 0.4, scratch=scratch,
-                   force=script, deadline=max(time.time(), deadline) + (20 if quick else 120))
+                   force=script, deadline=max(time.time(), deadline) + (16 if quick else 120))
         if ctx.stats.get("divergence:SafeCommitTrace", 0) or ctx.divergences or ctx.violations:
             # something is off: look for a failing input among *all* crash points of merging histories
             _histories(ctx, "search-merging", njobs=4, ntxn=len(script), full=True, later_stride=2,
@@ -793,8 +891,12 @@ def _replay_case(ctx, rec, scratch):
     if ":codec:" in str(seed):
         _codec_files(ctx, scratch, seeds=[seed])
         return len(ctx.violations) + len(ctx.divergences) > before
-    _histories(ctx, "replay", njobs=1, ntxn=case.get("txn", 0) + 1, full=True, later_stride=1, trace_share=1.0,
-               scratch=scratch, seeds=[seed], pre=case.get("pre", 0))
+    script = _script_of(seed)
+    ntxn = case.get("txn", 0) + 1
+    if script:
+        ntxn = min(ntxn, len(script))
+    _histories(ctx, "replay", njobs=1, ntxn=ntxn, full=True, later_stride=1, trace_share=1.0,
+               scratch=scratch, seeds=[seed], pre=case.get("pre", 0), force=script)
     return len(ctx.violations) + len(ctx.divergences) > before
 
 
